@@ -65,22 +65,22 @@ NA_REASON = "(none) check not built yet in this session (work in progress; the d
 EXTRA = {
  "C01": " Round 2: shard counts for 3/5/6/7/12 CPUs, keys with empty id components, and (a quarter of the cases) values whose destructor panics when they lose the insertion race - every other call must be unaffected. Round 3: 50..600 removals of ids that never existed after the racing phase (nothing may vanish); a key with a '/'. Round 5: a 44-byte key (ids longer than 32 bytes).",
  "C02": " Round 2: ids with empty components, AssetCache front-ends built under 1..12 CPUs, and a Notify op on the front-ends with a reloader (a change of a file is announced without changing it; nothing may change while only plain entries are cached). Round 3: ids with a '/'. Round 5: a 51-byte id.",
- "C04": " Round 2: a copy of the zip archive with one flipped data byte in a stored member must fail to read that member, never return other bytes. Round 3: file members spelled zz/../<path>. Round 5: a copy of the tar archive cut inside the data of its last member (read must fail or give the tree's bytes); the Embedded table also written by hand with its lists in another order than the macro's.",
+ "C04": " Round 2: a copy of the zip archive with one flipped data byte in a stored member must fail to read that member, never return other bytes. Round 3: file members spelled zz/../<path>. Round 5: a copy of the tar archive cut inside the data of its last member (read must fail or give the tree's bytes); the Embedded table also written by hand with its lists in another order than the macro's. Round 6: one directory may hold an entry without an id (archive member backup.tar.x, on disk a file with a non UTF-8 name): no source lists it and nothing else changes.",
  "C05": " Since repair D14 the first hot_reload call after the notifications must already have applied the sentinel's change (hot_reload mode); an asset whose latest load looked an entry up (whatever the look-up returned) must be reloaded when that entry is. Widened-windows scenario (one case in 41): the two schedule points of the reloader loop are slowed down through the hook set_schedule_hook while a thread loads, notifies and calls hot_reload (clearing the cache in odd rounds): no notification may be lost whichever message the thread examines first (found D15, D16).",
- "C07": " Round 2: a first-load race of 2..5 threads before any hot_reload call (value and reload id must not move afterwards) and a compound of a second hot-reloaded cache that reads the handle on that cache's reloader thread. Round 3: 6..14 threads calling hot_reload under the read side of a gate with a slow loader while notifications keep coming; whenever an observer holds the write side nothing may move. Round 4: a hot_reload call in flight must complete while the reader completes 30 million read sections (writer starvation by recursive read locks, parking_lot configuration).",
- "C08": " Round 2: the source may drop its EventSender while callers run (remaining calls must degrade to no-ops; found D13), and after all callers returned a freshly notified change must still be applied within 4000 calls. Round 3: a sustained stream (one call = one pass), aimed stop races (the stopping reloader parked in the destructor of its source, released against callers entering hot_reload), one call against a flood of notifications (bounded work; found a regression of repair D14).",
+ "C07": " Round 2: a first-load race of 2..5 threads before any hot_reload call (value and reload id must not move afterwards) and a compound of a second hot-reloaded cache that reads the handle on that cache's reloader thread. Round 3: 6..14 threads calling hot_reload under the read side of a gate with a slow loader while notifications keep coming; whenever an observer holds the write side nothing may move. Round 4: a hot_reload call in flight must complete while the reader completes 30 million read sections (writer starvation by recursive read locks, parking_lot configuration). Round 6: every gated caller changes and notifies an asset of its own before its call and reads it afterwards (the call does not return before that change is applied, whoever else is calling); the guard-holding reader also asks reloaded_global(), which must not move the reload id.",
+ "C08": " Round 2: the source may drop its EventSender while callers run (remaining calls must degrade to no-ops; found D13), and after all callers returned a freshly notified change must still be applied within 4000 calls. Round 3: a sustained stream (one call = one pass), aimed stop races (the stopping reloader parked in the destructor of its source, released against callers entering hot_reload), one call against a flood of notifications (bounded work; found a regression of repair D14). Round 6: a dependency chain of 1500..3000 assets (loaded bottom-up) reloaded by one call.",
  "C09": " Round 2: after the repair every leaf and node is loaded directly and every leaf changed again: dependents recorded through look-ups that failed while the fault was present must be reloaded.",
- "C10": " Round 2: a constructor on a source whose configure_hot_reloading fails after it stored the EventSender (the cache must have no reloader).",
- "C11": " Round 2: extensions differing only by ASCII case (txt/TXT, x/X) in the generated trees. Round 3: a hand-written DirLoadable whose sub_directories prunes, plain and wrapped in Arc.",
- "C12": " Round 2: in half of the real histories the first activity under the freshly built watcher is one single-notification operation; inotify availability is probed with a notify watcher of the harness itself; a stale listing is a violation only if it persists over six further barriers. Round 3: a watcher built with FsWatcherBuilder on a root reached through a symbolic link. Round 5: the outside-every-root probe alternates with a path in a sibling directory whose name starts with the root's name.",
- "C13": " Round 2: reloads in which the destructor of the replaced value panics; workers over the AnyCache view of a LocalAssetCache that run on threads iff AnyCache is Sync (decided at compile time).",
+ "C10": " Round 2: a constructor on a source whose configure_hot_reloading fails after it stored the EventSender (the cache must have no reloader). Round 6: kinds OnceInitCell<U, T> and OnceInitCell<Option<U>, T> around an opt-out asset.",
+ "C11": " Round 2: extensions differing only by ASCII case (txt/TXT, x/X) in the generated trees. Round 3: a hand-written DirLoadable whose sub_directories prunes, plain and wrapped in Arc. Round 6: the tree's directories may hold an entry without an id (see C04): listings neither show it nor fail.",
+ "C12": " Round 2: in half of the real histories the first activity under the freshly built watcher is one single-notification operation; inotify availability is probed with a notify watcher of the harness itself; a stale listing is a violation only if it persists over six further barriers. Round 3: a watcher built with FsWatcherBuilder on a root reached through a symbolic link. Round 5: the outside-every-root probe alternates with a path in a sibling directory whose name starts with the root's name. Round 6: probe target with a name whose only dot is the leading one (.hidden file, .cache directory).",
+ "C13": " Round 2: reloads in which the destructor of the replaced value panics; workers over the AnyCache view of a LocalAssetCache that run on threads iff AnyCache is Sync (decided at compile time). Round 6: a reload that fails because the file was deleted (the old value stays alive and reachable); in half of the load races one thread stores a value with get_or_insert while the others are inside the loader (the stored value stays).",
  "C14": " Round 2: a third of the cases continue with a create/remove/rewrite history over a tree whose ids are selected by a custom DirLoadable from manifest files; cached (recursive) directories must list exactly what the tree holds.",
  "C15": " Round 2: a custom source owning an event-producing thread that stops on Disconnected and is joined by the source's destructor: dropping the cache must finish before 3000 more events were accepted. Round 3: 2..4 extra threads flood the event channel from just before the drop on. Round 4: a bulk phase (thousands of assets loaded, cleared, loaded again) right before the drop: the reloader must be gone / idle 2 s later.",
  "C17": " Round 2: large seeds (520 B with Drop, 1 KiB with a panicking destructor, 4 KiB without drop glue) with checked padding. Round 3: a zero-sized seed with a destructor; initialisers run from a guard's destructor while the thread unwinds.",
  "C18": " Round 2: eight boundary counter values (2^31 .. usize::MAX) built through the hook ReloadId::verif_from_raw, in the random pool and in the enumerated sub-pool; the order of every pair of ids must be the order of their counters. Round 3: swap rounds and taker rounds (swap is one atomic exchange).",
- "C03": " Round 5: every content of a case also goes through the loaders the crate ships (BytesLoader, StringLoader, ParseLoader for six target types, borrowed and owned; the String / SharedString assets through a cache); contents include a parseable payload between Unicode white space and look-alikes.",
- "C16": " Round 5: every case ends with two Vec-backed buffers built while the checking allocator serves small blocks from a packed arena (32-byte slots, no in-band headers, last freed first), so that the header lies directly in front of the Vec's data.",
- "C06": "Round 3: 2..3 concurrent pollers of reloaded_global() against 200..1500 rewrites: at most one true per rewrite in total. Round 4: late registration - an event about a file nobody uses yet is examined by a request with a second request queued behind it (schedule hook); an asset reading that file is loaded for the first time meanwhile and must not be reloaded. Round 5: watchers created right before each step and first asked after it report exactly the rewrites of that step; ReloadWatcher::last_reload_id() equals the handle's id before any poll.",
+ "C03": " Round 5: every content of a case also goes through the loaders the crate ships (BytesLoader, StringLoader, ParseLoader for six target types, borrowed and owned; the String / SharedString assets through a cache); contents include a parseable payload between Unicode white space and look-alikes. Round 6: one read fails once with each of 8 I/O error kinds (incl. Interrupted, WouldBlock): that load fails with that error after exactly one read of the entry, or falls through to the next extension; nothing is cached; the same call then succeeds.",
+ "C16": " Round 5: every case ends with two Vec-backed buffers built while the checking allocator serves small blocks from a packed arena (32-byte slots, no in-band headers, last freed first), so that the header lies directly in front of the Vec's data. Round 6: every case ends with a short-lived thread whose thread-local (first used before any buffer was built) drops the last clones of a buffer and a string in its destructor.",
+ "C06": "Round 3: 2..3 concurrent pollers of reloaded_global() against 200..1500 rewrites: at most one true per rewrite in total. Round 4: late registration - an event about a file nobody uses yet is examined by a request with a second request queued behind it (schedule hook); an asset reading that file is loaded for the first time meanwhile and must not be reloaded. Round 5: watchers created right before each step and first asked after it report exactly the rewrites of that step; ReloadWatcher::last_reload_id() equals the handle's id before any poll. Round 6: late registration also after clear() (notify, proven examined, clear, load again, hot_reload: no reload) and with the notification examined by the idle reloader.",
 }
 
 props = [json.loads(l) for l in open('/verif/properties.jsonl')]
